@@ -63,6 +63,8 @@ def main():
             "add_only": True,
         },
         "engines": [
+            {"name": "mir-wmm-smt", "path": "/verif/lib/wmm.py", "serves_properties": [c["property_id"] for c in checks if c["engine"] == "mir-wmm-smt"],
+             "kind_free_text": "weak-memory BMC: event trees extracted from MIR (orderings read from the source on every run), RC11-style axioms, solver searches interleavings and reads-from choices"},
             {"name": "mir-smt", "path": "/verif/lib/mir.py, /verif/lib/smtengine.py", "serves_properties": [c["property_id"] for c in checks if "mir-smt" in c["engine"]],
              "kind_free_text": "rustc MIR (-Zunpretty=mir, regenerated from /repo on every run) symbolically executed into SMT-LIB2; z3 and cvc5 must agree; counterexamples replayed through a native driver"},
             {"name": "kani-cbmc", "path": "/verif/kani", "serves_properties": [c["property_id"] for c in checks if c["engine"] == "kani-cbmc"],
